@@ -345,7 +345,9 @@ func (p *player) Bet(chips int64) error {
 
 	p.pay(chips, true)
 
-	p.game.GetState().Status.PreviousRaiseSize = chips
+	// A bet larger than the stack is an all-in for less: the size of the bet is
+	// what has actually been wagered
+	p.game.GetState().Status.PreviousRaiseSize = p.state.Wager
 
 	p.game.UpdateLastAction(p.idx, "bet", chips)
 
